@@ -23,7 +23,7 @@ func init() {
 	register("C09", &propDef{
 		Title: "A bundle survives being re-opened and archived",
 		Rules: []func(*Checker){ruleC09Fields, ruleC09Archive, ruleChecksum("C09.checksum"), ruleC06ManifestAs("C09.addrs"),
-			ruleRootSymmetric("C09.symmetric"), ruleLinkPrecise("C09.linkprecise"), ruleC09Answers, ruleLocalMemo("C09.localmemo"), ruleGuardOwnField("C09.metaguard"), ruleRestore("C09.restore"), ruleMeta("C09.meta"), ruleC04Accept2("C09.links"), ruleEntryNameAsSpelled("C09.namekept"), ruleNameAgreement("C09.names", "sourcebundle"),
+			ruleRootSymmetric("C09.symmetric"), ruleLinkPrecise("C09.linkprecise"), ruleC09Answers, ruleLocalMemo("C09.localmemo"), ruleGuardOwnField("C09.metaguard"), ruleRestore("C09.restore"), ruleMeta("C09.meta"), ruleC04Accept2("C09.links"), ruleEntryNameAsSpelled("C09.namekept"), ruleNameAgreement("C09.names", "sourcebundle"), aliasRule(ruleC02Omit, "C02.omit", "C09.omit", 3),
 			aliasRuleFiltered(ruleC02LinkTarget, "C02.linktarget", "C09.linktarget", 1, func(o Oblig) bool { return strings.Contains(o.Key, "Unpack") }),
 			aliasRuleFiltered(ruleC06CanonURL, "C06.canonurl", "C09.canonkey", 1, func(o Oblig) bool { return strings.Contains(o.Key, "canonical") }),
 			aliasRuleFiltered(ruleC13Maps, "C13.maps", "C09.lookup", 3, func(o Oblig) bool {
@@ -505,21 +505,62 @@ func ruleC08SameJoin(c *Checker) {
 		if !isResolver {
 			continue
 		}
-		for i, r := range successReturns(fn) {
-			okj := false
-			for _, v := range returnValues(r, 0) {
-				if v == nil {
-					continue
-				}
-				for x := range p.backSlice(v, 0) {
-					if cl, ok := x.(*ssa.Call); ok && cl.Common().StaticCallee() != nil && cl.Common().StaticCallee().Name() == "FinalSourceAddr" {
-						// receiver is the requested source (a parameter of the resolver)
-						for y := range p.backSlice(cl.Call.Args[0], 0) {
-							if prm, ok := y.(*ssa.Parameter); ok && prm.Parent() == fn {
-								okj = true
-							}
+		// joined on every way to the return: the call itself, or a merge / a variable all of whose
+		// incoming values are (a cache-hit branch that leaves the variable as the table gave it is not)
+		var joined func(v ssa.Value, depth int) bool
+		joined = func(v ssa.Value, depth int) bool {
+			if v == nil || depth > 8 {
+				return false
+			}
+			switch x := v.(type) {
+			case *ssa.Call:
+				if g := x.Common().StaticCallee(); g != nil && g.Name() == "FinalSourceAddr" && len(x.Call.Args) > 0 {
+					// receiver is the requested source (a parameter of the resolver)
+					for y := range p.backSlice(x.Call.Args[0], 0) {
+						if prm, ok := y.(*ssa.Parameter); ok && prm.Parent() == fn {
+							return true
 						}
 					}
+				}
+				return false
+			case *ssa.Phi:
+				for _, e := range x.Edges {
+					if e == v {
+						continue
+					}
+					if !joined(e, depth+1) {
+						return false
+					}
+				}
+				return len(x.Edges) > 0
+			case *ssa.UnOp:
+				if x.Op == token.MUL {
+					if vals, ok := cellValuesAt(x); ok && len(vals) > 0 {
+						for _, sv := range vals {
+							if !joined(sv, depth+1) {
+								return false
+							}
+						}
+						return true
+					}
+				}
+				return false
+			case *ssa.MakeInterface:
+				return joined(x.X, depth+1)
+			case *ssa.ChangeInterface:
+				return joined(x.X, depth+1)
+			}
+			if cv := canon(v); cv != v {
+				return joined(cv, depth+1)
+			}
+			return false
+		}
+		for i, r := range successReturns(fn) {
+			vals := returnValues(r, 0)
+			okj := len(vals) > 0
+			for _, v := range vals {
+				if !joined(v, 0) {
+					okj = false
 				}
 			}
 			c.check(okj, R, p.FuncName(fn), fmt.Sprintf("success return %d joined with the caller's sub-path", i), p.Pos(r.Pos()), "the returned address is sourceAddr.FinalSourceAddr(registry's address)", "the resolver can return the registry's address without the requesting source's sub-path (cache-hit or early-return path): the finder then analyses the wrong directory and that sub-module's dependencies are never discovered")
@@ -955,7 +996,7 @@ func ruleC10Exits(c *Checker) {
 
 func ruleC10Tmp(c *Checker) {
 	const R = "C10.tmp"
-	c.rule(R, "No temporary directory is left in a finished bundle: from the creation of the work directory every success return of the package-ensuring function passes os.Rename(workDir, final) or os.RemoveAll(workDir).", 1)
+	c.rule(R, "No temporary directory is left in a finished bundle: from the creation of the work directory every success return of the package-ensuring function passes os.Rename(workDir, final) or os.RemoveAll(workDir), and so does every way back to the creation of another one.", 1)
 	p := c.P
 	fn, fetch := ensureFunc(p)
 	if fn == nil {
@@ -976,12 +1017,13 @@ func ruleC10Tmp(c *Checker) {
 		o := calleeObj(cl)
 		return (isFunc(o, "os", "Rename") || isFunc(o, "os", "RemoveAll")) && canon(cl.Call.Args[0]) == workDir
 	}
-	ok, off := mustPassOK(tmp, pass, func(r *ssa.Return) bool { return !mayReturnNilErr(r) }, nil)
+	// … and before another one is created (a retry loop that makes a fresh directory per attempt)
+	ok, off := mustPassOK(tmp, pass, func(r *ssa.Return) bool { return !mayReturnNilErr(r) }, func(in ssa.Instruction) bool { return in == ssa.Instruction(tmp) })
 	pos := p.Pos(tmp.Pos())
 	if off != nil {
 		pos = p.Pos(off.Pos())
 	}
-	c.check(ok, R, p.FuncName(fn), "temporary directory disposed of", pos, "renamed into place or removed on every successful path", "a successful build can leave a .tmp-* directory in the bundle")
+	c.check(ok, R, p.FuncName(fn), "temporary directory disposed of", pos, "renamed into place or removed on every successful path, and before the next one is made", "a successful build can leave a .tmp-* directory in the bundle (a success return, or a second attempt with a fresh directory, is reached without the directory having been renamed into place or removed)")
 }
 
 func ruleC10Inside(c *Checker) {
